@@ -87,3 +87,73 @@ Theorem C15_pegin_follows_flag_before_fix_refuted :
   ~ (forall inp, in_is_pegin inp = false -> pegin_of_before_fix inp = None).
 Proof. exact pegin_follows_flag_before_fix_refuted. Qed.
 Print Assumptions C15_pegin_follows_flag_before_fix_refuted.
+
+(* ================================================================== hash-composition jets (phase 2)
+   Model: Env/TxHashes.v - the 28 SHA-256 composition jets as functions of the abstract
+   transaction, computed with the executable SHA-256 of Merkle/Sha256.v (Uint63 primitives).
+   Scripts, scriptSigs, annexes and proofs enter as their hashes (data), as in the C structures. *)
+From RS Require Import Env.TxHashes.
+
+(* 9. every hash jet returns a value of its target type (2^256, or option 2^256 for the indexed
+   ones), for every transaction and every input word *)
+Theorem C15_hjet_typed : forall j t arg, has_ty (hjet_spec j t arg) (hjet_target j) = true.
+Proof. exact hjet_typed. Qed.
+Print Assumptions C15_hjet_typed.
+
+(* 10. sig_all_hash is a function of the committed view: version, lock time, current index, genesis
+   hash, script root, leaf version, internal key, control-block path, and per input / output the
+   byte strings of in_view / out_view *)
+Theorem C15_sig_all_hash_view : forall t, sig_all_hash t = sig_all_of_view (view_of t).
+Proof. exact sig_all_hash_view. Qed.
+Print Assumptions C15_sig_all_hash_view.
+
+Theorem C15_sig_all_hash_depends_on_view : forall t t', view_of t = view_of t' -> sig_all_hash t = sig_all_hash t'.
+Proof. exact sig_all_hash_depends_on_view. Qed.
+Print Assumptions C15_sig_all_hash_depends_on_view.
+
+(* 11. the view of an input / output is a function of these readings of it *)
+Theorem C15_in_view_ext : forall i j,
+  pegin_of i = pegin_of j -> in_txid i = in_txid j -> in_vout i = in_vout j -> in_sequence i = in_sequence j ->
+  annex_of i = annex_of j -> in_u_asset i = in_u_asset j -> in_u_value i = in_u_value j ->
+  in_u_script_hash i = in_u_script_hash j -> iss_kind_of i = iss_kind_of j -> iss_asset i = iss_asset j ->
+  iss_token i = iss_token j -> in_amount i = in_amount j -> token_amount i = token_amount j ->
+  iss_asset_proof i = iss_asset_proof j -> iss_token_proof i = iss_token_proof j ->
+  in_blinding_nonce i = in_blinding_nonce j -> in_entropy i = in_entropy j ->
+  in_view i = in_view j.
+Proof. exact in_view_ext. Qed.
+Print Assumptions C15_in_view_ext.
+
+Theorem C15_out_view_ext : forall o p,
+  out_asset o = out_asset p -> out_value o = out_value p -> out_nonce o = out_nonce p ->
+  out_script_hash o = out_script_hash p -> out_range_proof o = out_range_proof p -> out_surj_proof o = out_surj_proof p ->
+  out_view o = out_view p.
+Proof. exact out_view_ext. Qed.
+Print Assumptions C15_out_view_ext.
+
+(* 12. fields outside the view do not change the digest: the transaction id; the scriptSigs; the pegin
+   witness of an input whose is_pegin flag is clear; the issuance range proofs that the rules of
+   issuance_asset_proof / issuance_token_proof replace by the empty hash; of an output the
+   empty-script flag, the parsed null data and the proofs of explicit fields *)
+Theorem C15_sig_all_indep_txid : forall t x, sig_all_hash (set_txid t x) = sig_all_hash t.
+Proof. exact sig_all_indep_txid. Qed.
+Print Assumptions C15_sig_all_indep_txid.
+
+Theorem C15_sig_all_indep_script_sig : forall t (f : tx_input -> N),
+  sig_all_hash (set_inputs t (map (fun i => set_script_sig (f i) i) (tx_inputs t))) = sig_all_hash t.
+Proof. exact sig_all_indep_script_sig. Qed.
+Print Assumptions C15_sig_all_indep_script_sig.
+
+Theorem C15_sig_all_indep_unflagged_pegin : forall t (f : tx_input -> option N),
+  sig_all_hash (set_inputs t (map (fun i => set_pegin_data (f i) i) (tx_inputs t))) = sig_all_hash t.
+Proof. exact sig_all_indep_unflagged_pegin. Qed.
+Print Assumptions C15_sig_all_indep_unflagged_pegin.
+
+Theorem C15_sig_all_indep_unused_proofs : forall t (fa fk : tx_input -> N),
+  sig_all_hash (set_inputs t (map (fun i => set_rp (fa i) (fk i) i) (tx_inputs t))) = sig_all_hash t.
+Proof. exact sig_all_indep_unused_proofs. Qed.
+Print Assumptions C15_sig_all_indep_unused_proofs.
+
+Theorem C15_sig_all_indep_output_extra : forall t fe fnd fs fr,
+  sig_all_hash (set_outputs t (map (fun o => set_out_extra (fe o) (fnd o) (fs o) (fr o) o) (tx_outputs t))) = sig_all_hash t.
+Proof. exact sig_all_indep_output_extra. Qed.
+Print Assumptions C15_sig_all_indep_output_extra.
